@@ -1,5 +1,6 @@
 import FinProtoc.Conforms
 import FinProtoc.Proofs.WireLemmas
+import FinProtoc.Proofs.ConfInv
 /-!
 # Soundness of the encoder validator
 
@@ -235,177 +236,218 @@ theorem encFields_length {S : Schema} {reg cf cv} :
 
 theorem lenSafeFields_cons {S : Schema} {f fs v vs} (h : lenSafeFields S (f :: fs) (v :: vs) = true) :
     lenSafeField S f v = true ∧ lenSafeFields S fs vs = true ∧
-      (∀ t target f2 fs' v2 vs', f.kind = .lengthOf t target → fs = f2 :: fs' → vs = v2 :: vs' →
-        f2.rep = false ∧ ckFreeVal S f2.kind v2 = true) := by
+      (∀ t target, f.kind = .lengthOf t target → ckFreeUpTo S target fs vs = true) := by
   unfold lenSafeFields at h
   simp only [Bool.and_eq_true] at h
   obtain ⟨⟨h1, h2⟩, h3⟩ := h
   refine ⟨by unfold lenSafeField; exact h1, h3, ?_⟩
-  intro t target f2 fs' v2 vs' hk hfs hvs
-  subst hfs hvs
+  intro t target hk
   rw [hk] at h2
   simpa using h2
+
+/-! ### Facts about one field of the wire side -/
+
+theorem wireField_size {S : Schema} {reg cf cv f v acc r} (h : wireField S reg cf cv f v acc = some r) :
+    ∃ xs, r = acc ++ xs ∧ sizeField S f v = some xs.length := by
+  unfold wireField at h
+  unfold sizeField
+  by_cases hrep : f.rep
+  · simp only [hrep, if_true] at h ⊢
+    cases v <;> simp at h
+    rename_i es
+    obtain ⟨xs, rfl, hs⟩ := encList_size h
+    refine ⟨encInt S.cfg.le S.cfg.listPfx.width es.length ++ xs, by simp [List.append_assoc], ?_⟩
+    simp [hs]
+  · simp only [hrep] at h ⊢
+    obtain ⟨xs, rfl, hs⟩ := encVal_size h
+    exact ⟨xs, rfl, by simpa using hs⟩
+
+theorem wireField_prefix {S : Schema} {reg cf cv f v acc xs} (hck : ckFreeField S f v = true)
+    (h : wireField S reg cf cv f v acc = some (acc ++ xs)) (acc' : Bytes) :
+    wireField S reg cf cv f v acc' = some (acc' ++ xs) := by
+  unfold wireField at h ⊢
+  unfold ckFreeField at hck
+  by_cases hrep : f.rep
+  · simp only [hrep, if_true] at h hck ⊢
+    cases v <;> simp at h
+    rename_i es
+    simp only at hck
+    obtain ⟨ys, hys, _⟩ := encList_size h
+    have hxs : xs = encInt S.cfg.le S.cfg.listPfx.width es.length ++ ys := by
+      have := hys; simp only [List.append_assoc] at this
+      exact List.append_cancel_left this
+    subst hxs
+    have h' : encList S reg cf cv f.kind es (acc ++ encInt S.cfg.le S.cfg.listPfx.width es.length) =
+        some ((acc ++ encInt S.cfg.le S.cfg.listPfx.width es.length) ++ ys) := by rw [h, hys]
+    have := (enc_prefix_all S reg).2.2 cf cv f.kind es _ ys hck h' (acc' ++ encInt S.cfg.le S.cfg.listPfx.width es.length)
+    simpa [List.append_assoc] using this
+  · simp only [hrep] at h hck ⊢
+    exact encVal_prefix hck h acc'
+
+/-! ### The relation between the specification's buffer and the emitted encoder's buffer
+
+Outside a pending length field they are equal.  While a length field waits for its target the emitted buffer holds
+the zero placeholder where the specification already has the length; the position variable points at it. -/
+def BufRel (S : Schema) (cfs : List Field) (cv : List Val) :
+    Option Pending → Bytes → Bytes → List (String × Nat) → List Field → List Val → Prop
+  | none, accW, accE, _, _, _ => accE = accW
+  | some p, accW, accE, vars, fs, vs =>
+    ∃ a mid n le1, accW = a ++ encInt S.cfg.le p.w n ++ mid ∧ accE = a ++ encInt le1 p.w 0 ++ mid ∧
+      vars.lookup p.pv = some a.length ∧ lookupSize S cfs cv p.target = some n ∧ ckFreeUpTo S p.target fs vs = true
 
 /-- all the fields of one packet frame -/
 theorem frame_sound {S : Schema} {reg : Registry} {call : ECall} {d : Nat} (hc : CallOK S reg call d)
     (cfs : List Field) (cv : List Val) (hd : depthList cv ≤ d) :
-    ∀ (n : Nat) (fs : List Field), fs.length ≤ n →
-      ∀ (i : Nat) (vs : List Val) (steps : List EStep) (acc r : Bytes) (vars : List (String × Nat)),
-      confFieldsE S cfs i fs steps = true →
+    ∀ (fs : List Field) (pend : Option Pending) (i : Nat) (vs : List Val) (steps : List EStep)
+      (accW accE r : Bytes) (vars : List (String × Nat)),
+      confFieldsE S cfs pend i fs steps = true →
       (∀ j f, fs[j]? = some f → cfs[i + j]? = some f) →
       (∀ j v, vs[j]? = some v → cv[i + j]? = some v) →
       lenSafeFields S fs vs = true →
-      encFields S reg cfs cv fs vs acc = some r →
-      ∃ s', stepsE call reg cv steps { buf := acc, vars := vars } = some s' ∧ s'.buf = r := by
-  intro n
-  induction n with
-  | zero =>
-    intro fs hlen0 i vs steps acc r vars hconf _ _ _ h
-    have : fs = [] := by cases fs <;> simp at hlen0 ⊢
-    subst this
+      BufRel S cfs cv pend accW accE vars fs vs →
+      encFields S reg cfs cv fs vs accW = some r →
+      ∃ s', stepsE call reg cv steps { buf := accE, vars := vars } = some s' ∧ s'.buf = r := by
+  intro fs
+  induction fs with
+  | nil =>
+    intro pend i vs steps accW accE r vars hconf _ _ _ hrel h
     cases vs <;> simp [encFields] at h
-    cases steps <;> simp [confFieldsE] at hconf
     subst h
-    exact ⟨_, rfl, rfl⟩
-  | succ n ih =>
-    intro fs hlenn i vs steps acc r vars hconf hcf hcv hs h
-    cases fs with
-    | nil =>
-      cases vs <;> simp [encFields] at h
+    cases pend with
+    | some p => simp [confFieldsE] at hconf
+    | none =>
       cases steps <;> simp [confFieldsE] at hconf
-      subst h
+      simp only [BufRel] at hrel
+      subst hrel
       exact ⟨_, rfl, rfl⟩
-    | cons f fs =>
+  | cons f fs ih =>
+    intro pend i vs steps accW accE r vars hconf hcf hcv hs hrel h
     cases vs with
     | nil => simp [encFields] at h
     | cons v vs =>
       rw [encFields_cons] at h
       obtain ⟨acc1, h1, h2⟩ := bind_eq_some'.mp h
       obtain ⟨hs1, hs2, hs3⟩ := lenSafeFields_cons hs
+      have hfi : cfs[i]? = some f := by simpa using hcf 0 f (by simp)
       have hvi : cv[i]? = some v := by simpa using hcv 0 v (by simp)
       have hdv : v.depth ≤ d := Nat.le_trans (depth_le_of_getElem? hvi) hd
-      -- is this a (non-repeated) length-of field?
-      by_cases hlen : (∃ t target, f.kind = .lengthOf t target) ∧ f.rep = false
-      · obtain ⟨⟨t, target, hk⟩, hrep⟩ := hlen
-        unfold confFieldsE at hconf
-        simp only [hk, hrep] at hconf
-        cases fs with
-        | nil => simp at hconf
-        | cons f2 fs' =>
-          -- steps must be slot, mark, st2, mark, patch, rest
-          rcases steps with _ | ⟨s1, _ | ⟨s2, _ | ⟨s3, _ | ⟨s4, _ | ⟨s5, rest⟩⟩⟩⟩⟩ <;> try (simp at hconf; done)
-          cases s1 <;> try (simp at hconf; done)
-          cases s2 <;> try (simp at hconf; done)
-          cases s4 <;> try (simp at hconf; done)
-          cases s5 <;> try (simp at hconf; done)
-          rename_i w1 le1 pv0 sv0 ev0 w2 le2 pv sv ev slice
-          simp only [Bool.and_eq_true, decide_eq_true_eq, bne_iff_ne, ne_eq, Bool.not_eq_true', and_assoc] at hconf
-          obtain ⟨hw1, hle1, hw2, hle2, hpv, hsv, hev, hne1, hne2, hne3, hname, hidx, hrep2, hcall, hslice, hp2, hrest⟩ := hconf
-          subst hpv hsv hev hw1 hw2
-          cases vs with
-          | nil => simp [encFields] at h2
-          | cons v2 vs' =>
-            obtain ⟨_, hck⟩ := hs3 t target f2 fs' v2 vs' hk rfl rfl
-            obtain ⟨hs21, hs22, _⟩ := lenSafeFields_cons hs2
-            rw [encFields_cons] at h2
-            obtain ⟨acc2, h21, h22⟩ := bind_eq_some'.mp h2
-            -- the Wire side of the length field
-            have hf2 : cfs[i + 1]? = some f2 := by simpa using hcf 1 f2 (by simp)
-            have hv2 : cv[i + 1]? = some v2 := by simpa using hcv 1 v2 (by simp)
-            have hsz := lookupSize_at (S := S) cfs cv (i + 1) f2 v2 hidx hf2 hv2
-            unfold wireField at h1
-            simp only [hrep, hk] at h1
-            cases v <;> simp only [encVal] at h1 <;> try (simp at h1; done)
-            obtain ⟨n, hn, h1⟩ := bind_eq_some'.mp h1
-            simp at h1; subst h1
-            -- the Wire side of the target
-            have h21' : encVal S reg cfs cv f2.kind v2 (acc ++ encInt S.cfg.le t.width n) = some acc2 := by
-              unfold wireField at h21; simpa [hrep2] using h21
-            obtain ⟨xs, hacc2, hsize⟩ := encVal_size h21'
-            have hn' : n = xs.length := by
-              rw [hsz] at hn
-              unfold sizeField at hn
-              simp only [hrep2] at hn
-              rw [hsize] at hn; simpa using hn.symm
-            subst hacc2
-            -- the same target encoded behind the zero placeholder
-            have hz := encVal_prefix hck h21' (acc ++ encInt le1 t.width 0)
-            have hw2f : wireField S reg cfs cv f2 v2 (acc ++ encInt le1 t.width 0) = some ((acc ++ encInt le1 t.width 0) ++ xs) := by
-              unfold wireField; simpa [hrep2] using hz
-            have hdv2 : v2.depth ≤ d := Nat.le_trans (depth_le_of_getElem? hv2) hd
-            have hst3 := plain_sound hc (vars := (sv, (acc ++ encInt le1 t.width 0).length) :: (pv, acc.length) :: vars)
-              hp2 hv2 hdv2 hs21 hw2f
-            -- the patch
-            have hpatch : setAt ((acc ++ encInt le1 t.width 0) ++ xs) acc.length (encInt le2 t.width xs.length)
-                = some ((acc ++ encInt le2 t.width xs.length) ++ xs) := by
-              apply setAt_mid; simp
-            -- remaining fields
-            have hcf' : ∀ j f, fs'[j]? = some f → cfs[i + 2 + j]? = some f := by
-              intro j f hj
-              have := hcf (j + 2) f (by simpa using hj)
-              simpa [Nat.add_assoc, Nat.add_comm 2 j] using this
-            have hcv' : ∀ j v, vs'[j]? = some v → cv[i + 2 + j]? = some v := by
-              intro j v hj
-              have := hcv (j + 2) v (by simpa using hj)
-              simpa [Nat.add_assoc, Nat.add_comm 2 j] using this
-            obtain ⟨s', hrun, hbuf⟩ := ih fs' (by simp at hlenn; omega) (i + 2) vs' rest
-              (acc ++ encInt S.cfg.le t.width n ++ xs) r
-              ((ev, ((acc ++ encInt le1 t.width 0) ++ xs).length) :: (sv, (acc ++ encInt le1 t.width 0).length) :: (pv, acc.length) :: vars)
-              hrest hcf' hcv' hs22 h22
-            refine ⟨s', ?_, hbuf⟩
-            have hsv_ne : (sv == ev) = false := by simpa using hne1
-            have hpv_sv : (pv == sv) = false := by simpa using hne2
-            have hpv_ev : (pv == ev) = false := by simpa using hne3
-            have hev_sv : (ev == sv) = false := by
-              simp only [beq_eq_false_iff_ne, ne_eq] at hsv_ne ⊢; exact fun e => hsv_ne e.symm
-            have hev_pv : (ev == pv) = false := by
-              simp only [beq_eq_false_iff_ne, ne_eq] at hpv_ev ⊢; exact fun e => hpv_ev e.symm
-            have hsv_pv : (sv == pv) = false := by
-              simp only [beq_eq_false_iff_ne, ne_eq] at hpv_sv ⊢; exact fun e => hpv_sv e.symm
-            have e1 : stepE call reg cv (.slot t.width le1 pv) { buf := acc, vars := vars } =
-                some { buf := acc ++ encInt le1 t.width 0, vars := (pv, acc.length) :: vars } := rfl
-            have e2 : stepE call reg cv (.mark sv) { buf := acc ++ encInt le1 t.width 0, vars := (pv, acc.length) :: vars } =
-                some { buf := acc ++ encInt le1 t.width 0, vars := (sv, (acc ++ encInt le1 t.width 0).length) :: (pv, acc.length) :: vars } := rfl
-            have e4 : stepE call reg cv (.mark ev)
-                { buf := acc ++ encInt le1 t.width 0 ++ xs, vars := (sv, (acc ++ encInt le1 t.width 0).length) :: (pv, acc.length) :: vars } =
-                some { buf := acc ++ encInt le1 t.width 0 ++ xs,
-                       vars := (ev, (acc ++ encInt le1 t.width 0 ++ xs).length) :: (sv, (acc ++ encInt le1 t.width 0).length) :: (pv, acc.length) :: vars } := rfl
-            have hsub : (acc ++ encInt le1 t.width 0 ++ xs).length - (acc ++ encInt le1 t.width 0).length = xs.length := by
-              simp; omega
-            have e5 : stepE call reg cv (.patch t.width le2 pv sv ev slice)
-                { buf := acc ++ encInt le1 t.width 0 ++ xs,
-                  vars := (ev, (acc ++ encInt le1 t.width 0 ++ xs).length) :: (sv, (acc ++ encInt le1 t.width 0).length) :: (pv, acc.length) :: vars } =
-                some { buf := acc ++ encInt S.cfg.le t.width n ++ xs,
-                       vars := (ev, (acc ++ encInt le1 t.width 0 ++ xs).length) :: (sv, (acc ++ encInt le1 t.width 0).length) :: (pv, acc.length) :: vars } := by
-              simp only [stepE, EState.get, List.lookup, beq_self_eq_true, hsv_ne, hpv_sv, hpv_ev,
-                hslice, if_true, bind, Option.bind]
-              rw [hsub, hpatch, encInt_leOk hle2, hn']
-              rfl
-            simp only [stepsE, e1, e2, hst3, e4, e5, bind, Option.bind]
-            exact hrun
-      · -- an ordinary field: exactly one step
-        have hplain : ∃ st rest, steps = st :: rest ∧ plainOkE S i f st = true ∧ confFieldsE S cfs (i + 1) fs rest = true := by
-          unfold confFieldsE at hconf
-          cases hk : f.kind <;> cases hr : f.rep <;> simp only [hk, hr] at hconf <;>
-            first
-            | (exfalso; exact hlen ⟨⟨_, _, hk⟩, hr⟩)
-            | (cases steps with
-               | nil => simp at hconf
-               | cons st rest =>
-                 simp only [Bool.and_eq_true] at hconf
-                 exact ⟨st, rest, rfl, hconf.1, hconf.2⟩)
-        obtain ⟨st, rest, rfl, hp, hrest⟩ := hplain
-        have hstep := plain_sound hc (vars := vars) hp hvi hdv hs1 h1
-        have hcf' : ∀ j f, fs[j]? = some f → cfs[i + 1 + j]? = some f := by
-          intro j f hj
-          have := hcf (j + 1) f (by simpa using hj)
-          simpa [Nat.add_assoc, Nat.add_comm 1 j] using this
-        have hcv' : ∀ j v, vs[j]? = some v → cv[i + 1 + j]? = some v := by
-          intro j v hj
-          have := hcv (j + 1) v (by simpa using hj)
-          simpa [Nat.add_assoc, Nat.add_comm 1 j] using this
-        obtain ⟨s', hrun, hbuf⟩ := ih fs (by simp at hlenn; omega) (i + 1) vs rest acc1 r vars hrest hcf' hcv' hs2 h2
-        exact ⟨s', by simp [stepsE, hstep, hrun], hbuf⟩
+      have hcf' : ∀ j g, fs[j]? = some g → cfs[i + 1 + j]? = some g := by
+        intro j g hj
+        have := hcf (j + 1) g (by simpa using hj)
+        simpa [Nat.add_assoc, Nat.add_comm 1 j] using this
+      have hcv' : ∀ j w, vs[j]? = some w → cv[i + 1 + j]? = some w := by
+        intro j w hj
+        have := hcv (j + 1) w (by simpa using hj)
+        simpa [Nat.add_assoc, Nat.add_comm 1 j] using this
+      cases hrole : roleOf pend f with
+      | len t target =>
+        obtain ⟨hk, hrep, hpend⟩ := roleOf_len hrole
+        subst hpend
+        obtain ⟨le1, pv, rest, rfl, _, hrest⟩ := confFieldsE_len hrole hconf
+        have hE : accW = accE := by simpa [BufRel] using hrel.symm
+        subst hE
+        -- the wire side of the length field
+        unfold wireField at h1
+        simp only [hrep, hk] at h1
+        cases v <;> simp only [encVal] at h1 <;> try (simp at h1; done)
+        obtain ⟨n, hn, h1⟩ := bind_eq_some'.mp h1
+        simp at h1; subst h1
+        have hrel' : BufRel S cfs cv (some ⟨pv, t.width, target⟩) (accW ++ encInt S.cfg.le t.width n)
+            (accW ++ encInt le1 t.width 0) ((pv, accW.length) :: vars) fs vs := by
+          refine ⟨accW, [], n, le1, by simp, by simp, by simp [List.lookup], hn, hs3 t target hk⟩
+        obtain ⟨s', hrun, hbuf⟩ := ih (some ⟨pv, t.width, target⟩) (i + 1) vs rest _ _ r _ hrest hcf' hcv' hs2 hrel' h2
+        refine ⟨s', ?_, hbuf⟩
+        have e1 : stepE call reg cv (.slot t.width le1 pv) { buf := accW, vars := vars } =
+            some { buf := accW ++ encInt le1 t.width 0, vars := (pv, accW.length) :: vars } := rfl
+        simp only [stepsE, e1, bind, Option.bind]
+        exact hrun
+      | target p =>
+        obtain ⟨hpend, hname⟩ := roleOf_target hrole
+        subst hpend
+        obtain ⟨sv, st2, ev, le2, slice, rest, rfl, hle2, hne1, hne2, hne3, hidx, hrep2, _, hslice, hp2, hrest⟩ :=
+          confFieldsE_target hrole hconf
+        obtain ⟨a, mid, n, le1, haw, hae, hlook, hsize, hck⟩ := hrel
+        subst haw hae
+        -- the target is checksum-free
+        have hckf : ckFreeField S f v = true := by
+          unfold ckFreeUpTo at hck
+          simp only [Bool.and_eq_true] at hck
+          exact hck.1
+        -- the wire side of the target
+        obtain ⟨xs, hacc1, hsz⟩ := wireField_size h1
+        subst hacc1
+        have hn : n = xs.length := by
+          have := lookupSize_at (S := S) cfs cv i f v hidx hfi hvi
+          rw [this, hsz] at hsize
+          simpa using hsize.symm
+        -- the same target encoded behind the placeholder
+        have hw2f := wireField_prefix hckf h1 (a ++ encInt le1 p.w 0 ++ mid)
+        have hst := plain_sound hc (vars := (sv, (a ++ encInt le1 p.w 0 ++ mid).length) :: vars) hp2 hvi hdv hs1 hw2f
+        -- the patch
+        have hpatch : setAt (a ++ encInt le1 p.w 0 ++ (mid ++ xs)) a.length (encInt le2 p.w xs.length)
+            = some (a ++ encInt le2 p.w xs.length ++ (mid ++ xs)) := by
+          apply setAt_mid; simp
+        have hrel' : BufRel S cfs cv none (a ++ encInt S.cfg.le p.w n ++ mid ++ xs) (a ++ encInt S.cfg.le p.w n ++ mid ++ xs)
+            ((ev, (a ++ encInt le1 p.w 0 ++ mid ++ xs).length) :: (sv, (a ++ encInt le1 p.w 0 ++ mid).length) :: vars) fs vs := rfl
+        obtain ⟨s', hrun, hbuf⟩ := ih none (i + 1) vs rest _ _ r _ hrest hcf' hcv' hs2 hrel' h2
+        refine ⟨s', ?_, hbuf⟩
+        have hsv_ne : (sv == ev) = false := by simpa using hne1
+        have hpv_sv : (p.pv == sv) = false := by simpa using hne2
+        have hpv_ev : (p.pv == ev) = false := by simpa using hne3
+        have e1 : stepE call reg cv (.mark sv) { buf := a ++ encInt le1 p.w 0 ++ mid, vars := vars } =
+            some { buf := a ++ encInt le1 p.w 0 ++ mid, vars := (sv, (a ++ encInt le1 p.w 0 ++ mid).length) :: vars } := rfl
+        have e3 : stepE call reg cv (.mark ev)
+            { buf := a ++ encInt le1 p.w 0 ++ mid ++ xs, vars := (sv, (a ++ encInt le1 p.w 0 ++ mid).length) :: vars } =
+            some { buf := a ++ encInt le1 p.w 0 ++ mid ++ xs,
+                   vars := (ev, (a ++ encInt le1 p.w 0 ++ mid ++ xs).length) :: (sv, (a ++ encInt le1 p.w 0 ++ mid).length) :: vars } := rfl
+        have hsub : (a ++ encInt le1 p.w 0 ++ mid ++ xs).length - (a ++ encInt le1 p.w 0 ++ mid).length = xs.length := by
+          simp; omega
+        have e4 : stepE call reg cv (.patch p.w le2 p.pv sv ev slice)
+            { buf := a ++ encInt le1 p.w 0 ++ mid ++ xs,
+              vars := (ev, (a ++ encInt le1 p.w 0 ++ mid ++ xs).length) :: (sv, (a ++ encInt le1 p.w 0 ++ mid).length) :: vars } =
+            some { buf := a ++ encInt S.cfg.le p.w n ++ mid ++ xs,
+                   vars := (ev, (a ++ encInt le1 p.w 0 ++ mid ++ xs).length) :: (sv, (a ++ encInt le1 p.w 0 ++ mid).length) :: vars } := by
+          have hbuf' : a ++ encInt le1 p.w 0 ++ mid ++ xs = a ++ encInt le1 p.w 0 ++ (mid ++ xs) := by simp [List.append_assoc]
+          simp only [stepE, EState.get, List.lookup, beq_self_eq_true, hsv_ne, hpv_sv, hpv_ev, hlook,
+            hslice, if_true, bind, Option.bind]
+          rw [hsub, hbuf', hpatch, encInt_leOk hle2, hn]
+          simp [List.append_assoc]
+        simp only [stepsE, e1, hst, e3, e4, bind, Option.bind]
+        exact hrun
+      | plain =>
+        obtain ⟨st, rest, rfl, hp, hrest⟩ := confFieldsE_plain hrole hconf
+        cases pend with
+        | none =>
+          have hE : accW = accE := by simpa [BufRel] using hrel.symm
+          subst hE
+          have hstep := plain_sound hc (vars := vars) hp hvi hdv hs1 h1
+          have hrel' : BufRel S cfs cv none acc1 acc1 vars fs vs := rfl
+          obtain ⟨s', hrun, hbuf⟩ := ih none (i + 1) vs rest acc1 acc1 r vars hrest hcf' hcv' hs2 hrel' h2
+          refine ⟨s', ?_, hbuf⟩
+          simp only [stepsE, hstep, bind, Option.bind]
+          exact hrun
+        | some p =>
+          have hname := roleOf_plain_some hrole
+          obtain ⟨a, mid, n, le1, haw, hae, hlook, hsize, hck⟩ := hrel
+          subst haw hae
+          unfold ckFreeUpTo at hck
+          simp only [Bool.and_eq_true, Bool.or_eq_true, beq_iff_eq] at hck
+          obtain ⟨hckf, hck'⟩ := hck
+          have hck'' : ckFreeUpTo S p.target fs vs = true := by
+            rcases hck' with hk | hk
+            · exact absurd hk hname
+            · exact hk
+          obtain ⟨xs, hacc1, _⟩ := wireField_size h1
+          subst hacc1
+          have hw2f := wireField_prefix hckf h1 (a ++ encInt le1 p.w 0 ++ mid)
+          have hstep := plain_sound hc (vars := vars) hp hvi hdv hs1 hw2f
+          have hrel' : BufRel S cfs cv (some p) (a ++ encInt S.cfg.le p.w n ++ mid ++ xs) (a ++ encInt le1 p.w 0 ++ mid ++ xs) vars fs vs :=
+            ⟨a, mid ++ xs, n, le1, by simp [List.append_assoc], by simp [List.append_assoc], hlook, hsize, hck''⟩
+          obtain ⟨s', hrun, hbuf⟩ := ih (some p) (i + 1) vs rest _ _ r vars hrest hcf' hcv' hs2 hrel' h2
+          refine ⟨s', ?_, hbuf⟩
+          simp only [stepsE, hstep, bind, Option.bind]
+          exact hrun
+      | bad => exact (confFieldsE_bad hrole hconf).elim
 
 theorem find_spec {S : Schema} {pkt : String} {p : Packet} (h : S.find pkt = some p) : p ∈ S.packets ∧ p.name = pkt := by
   unfold Schema.find at h
@@ -434,8 +476,8 @@ theorem callOK_all {S : Schema} {P : Prog} (hconf : confEnc S P = true) (reg : R
       obtain ⟨hml, hcf⟩ := hpk
       have hlen := encFields_length p.fields vs acc r hw
       have hs' : lenSafeFields S p.fields vs = true := by simpa [lenSafeVal, hp] using hs
-      obtain ⟨s', hrun, hbuf⟩ := frame_sound ih p.fields vs (by omega) p.fields.length p.fields (Nat.le_refl _)
-        0 vs st.enc acc r [] hcf (by intro j f hj; simpa using hj) (by intro j v hj; simpa using hj) hs' hw
+      obtain ⟨s', hrun, hbuf⟩ := frame_sound ih p.fields vs (by omega) p.fields none
+        0 vs st.enc acc acc r [] hcf (by intro j f hj; simpa using hj) (by intro j v hj; simpa using hj) hs' rfl hw
       simp only [encStruct, hst, bind, Option.bind]
       have : ¬ (st.members.length ≠ vs.length) := by omega
       simp only [this, if_false, hrun, hbuf]
